@@ -136,6 +136,11 @@ class H:
         self.cache = cache or rng.choice(["none", "none", "big", "tiny"])
         self.wide = wide if wide is not None else rng.choice([0, 1])
         self.opts = dict(opts or {})
+        if kind is None and vt is None and fmt is None and rng.random() < 0.08:
+            # the registered-types loader of the v1marshaler format (UnmarshalerUsesRegisteredTypes): the node is
+            # unmarshaled straight into []interface{}; string keys and string values come back as themselves
+            self.kind, self.vt, self.fmt = 2, "str", "v1"
+            self.opts["regtypes"] = 1; self.opts.setdefault("callbacks", 0)
         if "callbacks" not in self.opts and rng.random() < 0.25:
             self.opts["callbacks"] = 1    # the configuration carries its own KeyCompare / Marshal / Unmarshal (default meaning)
         self.ops = []
